@@ -49,6 +49,29 @@ CHECKS["C22"] = ("vcheck", "model-based stateful testing: proptest insert/remove
     "Generated search with shrinking over histories (<= 50 ops, nested names incl. root, three classes, all entry kinds); after every step every pool name is looked up (longest suffix) and fetched (exact) in every class and the iteration is compared as a set.",
     "Trusts vmodel::zone::MCatalog.", "§4 C22")
 
+_S = "Trusts vmodel (wire decoder, Appendix B request scanner, Appendix A resolver) and the harness's own request encoder; RRL is off except in C01."
+CHECKS["C01"] = ("vcheck", "proptest structured requests + byte mutator + raw byte strings over generated catalogs/servers; oracle = no panic (catch_unwind)",
+    "Generated search with shrinking: catalogs incl. malformed RDATA and missing SOA, TSIG key sets, payload sizes 512-65535, RRL on/off, both transports, response buffer of exactly the documented minimum size. The thorough tier adds the libFuzzer target fz_server when built.",
+    _S, "§4 C01")
+CHECKS["C02"] = ("vcheck", "same generators as C01 (valid RDATA); every response decoded by an independent strict RFC 1035 decoder",
+    "Generated search with shrinking; counts, exact message end, names, RDATA validity of known types, OPT/TSIG placement, QDCOUNT <= 1.",
+    _S, "§4 C02")
+CHECKS["C03"] = ("vcheck", "proptest requests + sweep over all header flag/opcode octets; header/question echo rules as an executable predicate",
+    "Generated search with shrinking plus a sweep of header octets 2-3 (all 65536 values in the thorough tier, 8192 in quick) x three request shapes.",
+    _S + " Requests whose QNAME contains a pointer: decoded equality (DESIGN §4 C03).", "§4 C03")
+CHECKS["C05"] = ("vcheck", "proptest catalog generator + per-catalog enumeration of names around its contents x 11 QTYPEs, differential against an independent RFC 1034 §4.3.2 resolver",
+    "Generated search with shrinking over catalogs; per catalog up to 990 queries; RCODE, AA, answer/authority multisets, additional set.",
+    _S + " Restrictions: valid RDATA, no NS at wildcard owners, SOA MINIMUM < 2^31.", "§4 C05")
+CHECKS["C07"] = ("vcheck", "proptest catalogs with nested entries of all kinds in several classes x requests with any opcode/QTYPE/QCLASS, differential against the reference dispatch table",
+    "Generated search with shrinking; NOTIMP/REFUSED/SERVFAIL outcomes incl. AA clear and no records; answered queries checked for the RCODE of the longest-suffix entry's zone.",
+    _S, "§4 C07")
+CHECKS["C08"] = ("vcheck", "proptest well-formed requests put through a byte mutator, differential against the 'first problem in message order' scanner",
+    "Generated search with shrinking; both directions (FORMERR expected => FORMERR without data; no format problem => not FORMERR); malformation classes counted.",
+    _S, "§4 C08")
+CHECKS["C09"] = ("vcheck", "proptest requests with 0-2 OPT records anywhere and random OPT TTL fields, differential against the request scanner",
+    "Generated search with shrinking; exactly one OPT (root, class = server payload, version 0, additional) iff an OPT is reached; BADVERS; non-root owner.",
+    _S, "§4 C09")
+
 NOT_YET = {}
 
 def main():
